@@ -8,6 +8,7 @@ import (
 	"strconv"
 	"strings"
 
+	"github.com/anoideaopen/foundation/core"
 	"github.com/anoideaopen/foundation/core/balance"
 	fpb "github.com/anoideaopen/foundation/proto"
 )
@@ -97,7 +98,7 @@ func taskObs(msg string) string {
 
 func genC11(c *Ctx) error {
 	c.ShardSize = 400
-	c.Notes["rule"] = "entry points (createIndex, batchExecute, swapDone, multiSwapDone, executeTasks, the five robot functions, 14 other methods of all kinds incl. swap / multi-swap / admin-only ones, an unknown function) x caller identities (robot certificate, configuration holding its SKI or its hashed certificate or another identity's key, admin-OU certificate, ordinary certificate, RSA certificate, garbage, empty creator, identities whose PEM data holds two certificates - the first is the caller's) x configurations (subsets of 8 disabled functions - among them a swap and a multi-swap method, which may be disabled by name while their switch is off -, both swap switches); the same functions as single signed tasks through executeTasks; Init with every identity (also certificates with no organisational unit, an empty one, several); admin-only methods signed by admin / issuer / stranger through batches and tasks. Observed: gate verdict class and whether the ledger changed. Non-trivial: all (each is a distinct decision point)."
+	c.Notes["rule"] = "entry points (createIndex, batchExecute, swapDone, multiSwapDone, executeTasks, the five robot functions, 14 other methods of all kinds incl. swap / multi-swap / admin-only ones, an unknown function) x caller identities (robot certificate, configuration holding its SKI or its hashed certificate or another identity's key, admin-OU certificate, ordinary certificate, RSA certificate, garbage, empty creator, identities whose PEM data holds two certificates - the first is the caller's) x configurations (subsets of 8 disabled functions - among them a swap and a multi-swap method, which may be disabled by name while their switch is off -, both swap switches); the same functions as single signed tasks through executeTasks; Init with every identity (also certificates with no organisational unit, an empty one, several); admin-only methods signed by admin / issuer / stranger through batches and tasks, also on chaincodes initialised with the legacy positional list of each channel layout. Observed: gate verdict class and whether the ledger changed. Non-trivial: all (each is a distinct decision point)."
 	rng := c.Rng
 	w := NewWorld()
 	rsa := NewRSAIdentity("rsa", "client")
@@ -313,6 +314,54 @@ func genC11(c *Ctx) error {
 					c.Count("admin_" + coqBool(accepted))
 				}
 			}
+		}
+	}
+	// the administrator of a chaincode initialised with the legacy positional list is the address that channel's layout puts
+	// in the admin place: admin-only method by that address, by the issuer of the list and by a stranger
+	for _, lay := range []struct {
+		ch    string
+		admin int // index of the admin in the list
+		n     int
+	}{{"nft", 2, 3}, {"nmmmulti", 2, 3}, {"ct", 3, 4}, {"vote", 3, 4}, {"curusd", 2, 5}, {"otf", 2, 4}} {
+		parties := []*Account{w.Issuer, w.AdminAcc, w.FeeSet}
+		rng.Shuffle(len(parties), func(a, b int) { parties[a], parties[b] = parties[b], parties[a] })
+		args := []string{"platformski", w.Robot.SKI}
+		for len(args) < lay.n {
+			args = append(args, parties[len(args)-2].AddrString())
+		}
+		ccL, err := core.NewCC(&HToken{})
+		if err != nil {
+			return err
+		}
+		key := lay.ch + "-legacy"
+		chL := w.Peer.AddChannel(key, ccL)
+		chL.CCName, chL.ChannelID = lay.ch, lay.ch
+		if r := w.Peer.Init(key, w.Admin.Creator, args...); !r.OK() {
+			return fmt.Errorf("legacy init %s: %s", lay.ch, r.Message)
+		}
+		adminN := parties[lay.admin-2].N()
+		cfgL := fmt.Sprintf("(GCfg 1 %d [] false false)", adminN)
+		w.SetBalance(key, balance.BalanceTypeToken, stranger.AddrString(), "", big.NewInt(1000))
+		for si, s := range []*Account{parties[0], parties[1], parties[2], stranger} {
+			req, _ := json.Marshal(&fpb.BalanceLockRequest{Id: fmt.Sprintf("P%d", si), Address: stranger.AddrString(), Token: strings.ToUpper(lay.ch), Amount: "1", Reason: "r"})
+			before := stateSnapshot(chL)
+			nonce++
+			args := BuildRequest("lockTokenBalance", "", lay.ch, lay.ch, []string{string(req)}, strconv.FormatUint(nonce, 10), s.Members, nil, nil)
+			o2 := w.ExecTasks(key, w.Robot.Creator, []*fpb.Task{{Id: w.Peer.NextTxID(), Method: "lockTokenBalance", Args: args}})
+			msg := "TASKS FAILED " + o2.Res.Message
+			if o2.Resp != nil && len(o2.Resp.GetTxResponses()) == 1 {
+				msg = o2.Resp.GetTxResponses()[0].GetError().GetError()
+			}
+			accepted := msg == ""
+			changed := false
+			for k, v := range chL.State {
+				if before[k] != string(v) && !strings.Contains(k, "\x002a\x00") {
+					changed = true
+				}
+			}
+			c.Emit(fmt.Sprintf("CAdmin %s %d %s %s", cfgL, s.N(), coqBool(accepted), coqBool(changed && !accepted)),
+				map[string]interface{}{"kind": "admin_method_after_positional_init", "channel": lay.ch, "sender": s.N(), "message": msg}, true)
+			c.Count("admin_after_positional_init_" + coqBool(accepted))
 		}
 	}
 	// Init with every identity (on a second channel, valid and invalid configs are C18's subject)
